@@ -103,6 +103,8 @@ func (g *scriptGen) lineText() []TextPart {
 		parts = append(parts, TextPart{S: " f1="}, TextPart{E: varRef("f1")}, TextPart{S: " k2="}, TextPart{E: varRef("k2")})
 	case 2:
 		parts = append(parts, TextPart{S: " some words, here."})
+	case 5:
+		parts = append(parts, TextPart{S: " 1/k1="}, TextPart{E: bin("/", num("1"), varRef("k1"))}, TextPart{S: " 1/k2="}, TextPart{E: bin("/", num("1"), varRef("k2"))})
 	case 3:
 		if g.o.random {
 			parts = append(parts, TextPart{S: " roll "}, TextPart{E: call("dice", num(fmt.Sprint(rapid.SampledFrom([]int{1, 2, 6, 20, 1000000}).Draw(t, "sides"))))},
@@ -157,7 +159,14 @@ func (g *scriptGen) jumpTarget() string {
 
 func (g *scriptGen) setStmt() *Stmt {
 	t := g.t
-	switch rapid.IntRange(0, 9).Draw(t, "set") {
+	switch rapid.IntRange(0, 10).Draw(t, "set") {
+	case 10:
+		// changes the sign: a variable that is 0 becomes -0, which shows as 0 but divides differently
+		v := rapid.SampledFrom([]string{"k1", "k2"}).Draw(t, "v")
+		if rapid.Bool().Draw(t, "byproduct") {
+			return &Stmt{K: "set", Var: v, Op: "=", E: bin("*", varRef(v), neg(num("1")))}
+		}
+		return &Stmt{K: "set", Var: v, Op: "=", E: neg(varRef(v))}
 	case 0:
 		v := rapid.SampledFrom([]string{"f1", "f2"}).Draw(t, "v")
 		return &Stmt{K: "set", Var: v, Op: "=", E: not(varRef(v))}
